@@ -141,6 +141,8 @@ class Roles:
     def flag_true_blocks(self, bi, cell):
         """blocks dominated by the `true` arm of a switch on a bool field read (e.g. `if self.deleted`)"""
         out = set()
+        if cell is None:
+            return out
         for blk in bi.body.blocks:
             if blk.cleanup or blk.idx not in bi.cfg.reach:
                 continue
